@@ -388,7 +388,7 @@ def cases(draw, reproducible=False):
     elif fam == "series_transformer":
         c["spec"] = draw(panelpool.series_transformer_specs)
     elif fam == "panel_transformer":
-        c["spec"] = {"kind": draw(st.sampled_from([k for k in panelpool.PANEL_TRANSFORMERS if k != "plateau"]))}
+        c["spec"] = {"kind": draw(st.sampled_from(list(panelpool.PANEL_TRANSFORMERS)))}
         if c["spec"]["kind"] in ("riseg", "rife"):
             # every documented way of giving the number of random intervals
             c["spec"]["n_intervals"] = draw(st.sampled_from(N_INTERVALS))
@@ -408,8 +408,6 @@ def enum_purity_all_kinds(tier):
         for fr in (False, True):
             yield dict(base, family="series_transformer", spec=sp, as_frame=fr, container="nested")
     for k in panelpool.PANEL_TRANSFORMERS:
-        if k == "plateau":
-            continue
         for cont in ("nested", "numpy3d"):
             for ni in (N_INTERVALS if k in ("riseg", "rife") else (None,)):
                 yield dict(base, family="panel_transformer", spec={"kind": k} if ni is None else {"kind": k, "n_intervals": ni},
